@@ -1471,6 +1471,11 @@ func (x *Exec) evalInstr(st *State, in ssa.Instruction) SV {
 			p := x.value(st, i.X)
 			if p.Dyn != nil && p.Dyn.K == KSeq && p.Loc == nil {
 				if _, isArr := i.Type().Underlying().(*types.Array); isArr {
+					if refs := i.Referrers(); refs == nil || len(*refs) == 0 {
+						// the value of a range expression over a local array that only the index
+						// is taken from: loaded by the SSA builder, never used
+						return SV{K: KInt, T: IntC(0), Ty: i.Type()}
+					}
 					x.fail("array value copy")
 				}
 			}
